@@ -444,7 +444,8 @@ def _job_ops_invariant(ctx, num) -> bool:
         for fn0 in _view(P, m):
             if not calls_named(fn0, "WaitingQueueJob"):
                 continue
-            fn_ = fn0
+            from ..partition import pool_walks
+            fn_ = pool_walks(P, fn0)          # `for pool in s.executor.pools` is the walk over the pool indices
             g = cfg_of(fn_, subst_env=False)
             for c in calls_named(fn_, "WaitingQueueJob"):
                 if not isinstance(c.func, ast.Name):
